@@ -312,6 +312,30 @@ int main(int argc, char** argv) {
             }
             done5:;
         }
+        else if (u == "rules6") {
+            // sub-lattices of the 6-men material signatures that have their own rule in endGameEval.cpp: KRP v KRP (bounds from two KRPKR look-ups),
+            // KQ v KR+minor+P and KQ v KRPP (fortress detection); kings on every ks-th square, pieces on every xs-th, pawns on every ps-th legal square
+            int ks = (int)w.args.getInt("ks", 5), xs = (int)w.args.getInt("xs", 5), ps = (int)w.args.getInt("ps", 3);
+            std::vector<std::vector<int>> cl = {{orc::WK, orc::BK, orc::WR, orc::BR, orc::WP, orc::BP}, {orc::WK, orc::BK, orc::WQ, orc::BR, orc::BB, orc::BP}, {orc::WK, orc::BK, orc::WQ, orc::BR, orc::BN, orc::BP}, {orc::WK, orc::BK, orc::WQ, orc::BR, orc::BP, orc::BP}};
+            unsigned long long id = 0;
+            for (auto& c6 : cl) {
+                std::vector<int> sq(6, 0);
+                std::function<void(int, orc::Board&)> rec = [&](int i, orc::Board& b) {
+                    if (!R.exhaustive) return;
+                    if (i == 6) {
+                        if (!P.mine(id++)) return;
+                        for (int stm = 0; stm < 2; stm++) { b.wtm = stm == 0; if (uni::validPlacement(b)) symmetryOn(b); }
+                        if ((id & 0xffff) == 0 && w.dl.hit()) R.exhaustive = false;
+                        return;
+                    }
+                    int t = orc::typeOf(c6[(size_t)i]);
+                    int lo = t == 6 ? 8 : 0, hi = t == 6 ? 56 : 64, step = t == 1 ? ks : t == 6 ? ps : xs, off = t == 1 ? i : (i * 2) % step;
+                    for (int s0 = lo + off; s0 < hi; s0 += step) { if (b.sq[s0]) continue; b.sq[s0] = (signed char)c6[(size_t)i]; rec(i + 1, b); b.sq[s0] = 0; }
+                };
+                orc::Board b; rec(0, b);
+                R.outcome(uni::className(c6));
+            }
+        }
     }
     else if (part == "stream") {
         // fixed evaluation stream for cross-build comparison: prints position hash + value
